@@ -1,5 +1,5 @@
 (* metadata/Blocks_proofs2.v — codec theorems for VORBIS_COMMENT, PICTURE and CUESHEET. *)
-From FlacMeta Require Import Bytes Bytes_proofs Blocks Blocks_proofs.
+From FlacMeta Require Import Bytes Bytes_proofs Blocks Blocks_proofs Cue CueRender Cue_proofs.
 Open Scope N_scope.
 
 (* ---- (0..n).map(read).collect against an encoder *)
@@ -192,3 +192,129 @@ Proof.
   rewrite <- !app_assoc. reflexivity.
 Qed.
 End Utf8Codecs.
+
+(* ================================================================================== *)
+(* CUESHEET                                                                            *)
+(* ================================================================================== *)
+Section CuesheetCodec.
+Variable utf8_valid : list N -> bool.
+(* what std guarantees and the codec of the ASCII-only ISRC field needs *)
+Hypothesis utf8_ascii : forall s, Forall (fun b => b < 128) s -> utf8_valid s = true.
+
+Lemma lenN_write_flags a b : lenN (write_flags a b) = 1.
+Proof. destruct a, b; reflexivity. Qed.
+Lemma read_flags_write a b rest : read_flags (write_flags a b ++ rest) = Ok ((a, b), rest).
+Proof. destruct a, b; reflexivity. Qed.
+Lemma read_flags_inv s a b r : read_flags s = Ok ((a, b), r) -> exists c, s = c ++ r /\ lenN c = 1.
+Proof.
+  unfold read_flags. intros H. inv_bind H. apply take_ok in E. destruct E as [-> L].
+  exists a0. split; [|exact L].
+  destruct (rd 1 (bits_of_bytes a0)) as [[x y]|]; [|discriminate]. destruct (rd 1 y) as [[z w]|]; [|discriminate].
+  unfold pret in H. apply Ok_inj in H. injection H as _ _ <-. reflexivity.
+Qed.
+
+(* ---- ISRC *)
+Definition ty_isrc (i : isrc) : Prop := match i with IsrcNone => True | IsrcStr s => wf_isrc s end.
+
+Lemma class_ascii c : is_alpha c = true \/ is_alnum c = true \/ is_digit c = true -> c < 128 /\ c <> 0.
+Proof.
+  unfold is_alnum, is_alpha, is_digit. intros H.
+  repeat match goal with
+         | H : _ \/ _ |- _ => destruct H as [H|H]
+         | H : _ || _ = true |- _ => apply orb_prop in H
+         | H : _ && _ = true |- _ => apply andb_prop in H; destruct H as [? ?]
+         | H : (_ <=? _) = true |- _ => apply N.leb_le in H
+         end; lia.
+Qed.
+
+Lemma wf_isrc_bytes s : wf_isrc s -> Forall (fun b => b < 128) s /\ all_zero s = false.
+Proof.
+  intros (L & A & B & D). destruct (isrc_parts s L) as (E & L1 & _).
+  destruct (forallb_skipn5_split s L D) as [D1 D2].
+  rewrite forallb_forall in A, B, D1, D2.
+  assert (Hall : forall c, In c s -> c < 128 /\ c <> 0).
+  { intros c Hc. rewrite E in Hc. rewrite !in_app_iff in Hc. apply class_ascii.
+    destruct Hc as [Hc|[Hc|[Hc|Hc]]]; [left; apply A, Hc|right; left; apply B, Hc|right; right; apply D1, Hc|right; right; apply D2, Hc]. }
+  split; [apply Forall_forall; intros c Hc; apply Hall, Hc|].
+  destruct s as [|c q]; [cbn in L; lia|]. cbn [all_zero forallb].
+  destruct (Hall c (or_introl eq_refl)) as [_ Hnz]. destruct (N.eqb_spec c 0); [contradiction|reflexivity].
+Qed.
+
+Lemma lenN_write_isrc i : ty_isrc i -> lenN (write_isrc i) = 12.
+Proof.
+  destruct i as [|s]; intros T; cbn [write_isrc]; [apply lenN_zerosN|].
+  destruct T as (L & _). rewrite <- L. rewrite takeN_app. reflexivity.
+Qed.
+Lemma write_isrc_str s : wf_isrc s -> write_isrc (IsrcStr s) = s.
+Proof. intros (L & _). cbn [write_isrc]. rewrite <- L. apply takeN_app. Qed.
+
+Lemma read_isrc_write i rest : ty_isrc i -> read_isrc utf8_valid (write_isrc i ++ rest) = Ok (i, rest).
+Proof.
+  intros T. unfold read_isrc. destruct i as [|s].
+  - cbn [write_isrc]. rewrite (pbind_eq (take 12) _ _ (zerosN 12) rest) by (apply take_app_len, lenN_zerosN).
+    rewrite all_zero_zerosN. reflexivity.
+  - cbn [ty_isrc] in T. rewrite write_isrc_str by exact T. pose proof T as (L & _).
+    rewrite (pbind_eq (take 12) _ _ s rest) by (apply take_app_len, L).
+    destruct (wf_isrc_bytes s T) as [Ha Hz]. rewrite Hz, (utf8_ascii s Ha), (isrc_from_str_plain s T). reflexivity.
+Qed.
+
+(* a 12-byte field accepted as ISRC holds the string unchanged: dashes would shorten it *)
+Lemma filter_split_some s amt f rest : filter_split s amt f = Some rest ->
+  exists pre, s = pre ++ rest /\ lenN pre = amt /\ forallb f pre = true.
+Proof.
+  unfold filter_split. destruct (splitN amt s) as [[pre r]|] eqn:E; [|discriminate].
+  destruct (forallb f pre) eqn:F; [|discriminate]. intros H. injection H as <-.
+  apply splitN_some in E. destruct E as [-> L]. eauto.
+Qed.
+
+Lemma isrc_from_str_inv s x : isrc_from_str s = Some x -> wf_isrc x /\ lenN x <= lenN s /\ (lenN s = 12 -> x = s).
+Proof.
+  unfold isrc_from_str.
+  set (isrc := if existsb (fun b => b =? 45) s then filter (fun b => negb (b =? 45)) s else s).
+  destruct (filter_split isrc 2 is_alpha) as [s1|] eqn:E1; [|discriminate].
+  destruct (filter_split s1 3 is_alnum) as [s2|] eqn:E2; [|discriminate].
+  destruct (filter_split s2 2 is_digit) as [s3|] eqn:E3; [|discriminate].
+  destruct (filter_split s3 5 is_digit) as [s4|] eqn:E4; [|discriminate].
+  destruct s4; [|discriminate]. intros H. injection H as <-.
+  apply filter_split_some in E1, E2, E3, E4.
+  destruct E1 as (p1 & Ei & L1 & F1). destruct E2 as (p2 & -> & L2 & F2).
+  destruct E3 as (p3 & -> & L3 & F3). destruct E4 as (p4 & -> & L4 & F4). rewrite app_nil_r in *.
+  assert (Lp : lenN isrc = 12) by (rewrite Ei, !lenN_app; lia).
+  assert (W : wf_isrc isrc).
+  { rewrite lenN_length in L1, L2, L3, L4.
+    unfold wf_isrc. split; [exact Lp|]. rewrite Ei.
+    assert (X1 : firstn 2 (p1 ++ p2 ++ p3 ++ p4) = p1).
+    { rewrite firstn_app. replace (2 - length p1)%nat with 0%nat by lia. rewrite firstn_all2 by lia. cbn. apply app_nil_r. }
+    assert (X2 : skipn 2 (p1 ++ p2 ++ p3 ++ p4) = p2 ++ p3 ++ p4).
+    { rewrite skipn_app. replace (2 - length p1)%nat with 0%nat by lia. rewrite skipn_all2 by lia. reflexivity. }
+    assert (X3 : firstn 3 (p2 ++ p3 ++ p4) = p2).
+    { rewrite firstn_app. replace (3 - length p2)%nat with 0%nat by lia. rewrite firstn_all2 by lia. cbn. apply app_nil_r. }
+    assert (X4 : skipn 5 (p1 ++ p2 ++ p3 ++ p4) = p3 ++ p4).
+    { rewrite app_assoc. rewrite skipn_app. rewrite app_length.
+      replace (5 - (length p1 + length p2))%nat with 0%nat by lia. rewrite skipn_all2 by (rewrite app_length; lia). reflexivity. }
+    rewrite X1, X2, X3, X4. split; [exact F1|]. split; [exact F2|]. rewrite forallb_app, F3, F4. reflexivity. }
+  split; [exact W|].
+  assert (Lle : lenN isrc <= lenN s).
+  { unfold isrc. destruct (existsb _ s); [|lia]. rewrite !lenN_length. pose proof (filter_length_le (fun b => negb (b =? 45)) s). lia. }
+  split; [exact Lle|]. intros L12. unfold isrc in *.
+  destruct (existsb (fun b => b =? 45) s) eqn:Ex; [|reflexivity]. exfalso.
+  apply existsb_exists in Ex. destruct Ex as (c & Hc & Ec). apply N.eqb_eq in Ec. subst c.
+  (* a dash is removed, so the filtered string is strictly shorter *)
+  assert (Hlt : (length (filter (fun b => negb (b =? 45)) s) < length s)%nat).
+  { clear -Hc. induction s as [|y q IH]; [contradiction|]. cbn [filter length]. destruct Hc as [->|Hc].
+    - cbn. pose proof (filter_length_le (fun b => negb (b =? 45)) q). lia.
+    - specialize (IH Hc). destruct (negb (y =? 45)); cbn [length]; lia. }
+  rewrite !lenN_length in *. lia.
+Qed.
+
+Lemma read_isrc_inv s i r : Forall byte s -> read_isrc utf8_valid s = Ok (i, r) ->
+  ty_isrc i /\ exists c, s = c ++ r /\ lenN c = 12.
+Proof.
+  intros Hs H. unfold read_isrc in H. inv_bind H. apply take_ok in E. destruct E as [-> L].
+  destruct (all_zero a).
+  - unfold pret in H. apply Ok_inj in H. injection H as <- <-. split; [exact I|eauto].
+  - destruct (utf8_valid a); [|discriminate]. destruct (isrc_from_str a) as [x|] eqn:Ei; [|discriminate].
+    unfold pret in H. apply Ok_inj in H. injection H as <- <-.
+    apply isrc_from_str_inv in Ei. destruct Ei as (W & _ & _). split; [exact W|eauto].
+Qed.
+End CuesheetCodec.
